@@ -142,6 +142,44 @@ def _ctor_cases(quick):
                 yield ("P", ent, sp[0], sp[1])
 
 
+def _check_live_types(case):
+    """two or three in-place insertEntry / deleteEntry calls on ONE live tier with timestamps of several numeric types (float, int, exact
+    rationals that no float represents): the constructor converts to float, insertEntry stores what it is given - still every state is well-formed"""
+    kind, ops = case
+    t = (IT if kind == "I" else PT)("t", [], 0.0, 4.0)
+    viols = []
+    n = 0
+    for op in ops:
+        n += 1
+        if kind == "I":
+            st, r, _ = call(t.insertEntry, tierops.Interval(op[0], op[1], "n"), op[2], "silence")
+        else:
+            st, r, _ = call(t.insertEntry, tierops.Point(op[0], "n"), op[1], "silence")
+        if st == "exc" and not isinstance(r, PE):
+            viols.append(Viol("non-praatio-exception:" + type(r).__name__, f"insertEntry sequence {ops} (step {n}) raised {r!r}"))
+            break
+        w = wellformed(t)
+        if w:
+            viols.append(Viol("ill-formed:" + w, f"after the insertEntry sequence {ops[:n]} on one live tier: {canon(t)}"))
+            break
+    return n, "ok", (kind, tuple(o[-1] for o in ops)), viols
+
+
+def _live_type_cases():
+    from fractions import Fraction as Fr
+    vals = (0, Fr(4, 3), 2, Fr(7, 3), 3.0)
+    ivs = [(a, b) for a in vals for b in vals if a < b]
+    for a in ivs:
+        for b in ivs:
+            for m1 in ("error", "replace"):
+                for m2 in ("replace", "merge"):
+                    yield ("I", ((a[0], a[1], m1), (b[0], b[1], m2)))
+    for a in vals:
+        for b in vals:
+            for m2 in ("replace", "merge", "error"):
+                yield ("P", ((a, "error"), (b, m2), (a, "merge")))
+
+
 def parts(tier):
     quick = tier == "quick"
     depth = 3 if quick else 4
@@ -153,6 +191,11 @@ def parts(tier):
              "hull / absent), plus all pairs/triples of intervals on the ulp-neighbour values (0.1, 0.3, 0.1+0.2, 0.8): result is well-formed "
              "with exactly the given entries, or a praatio error" % (2 if quick else 3),
         bounds={"max_entries": 2 if quick else 3}))
+
+    ps.append(InputPart("live-insert-sequences-numeric-types", _live_type_cases, _check_live_types,
+                        rule="all pairs of insertEntry calls (intervals over {0, 4/3, 2, 7/3, 3.0} with 4/3 and 7/3 as fractions.Fraction and 0, 2 as int) and "
+                             "triples for point tiers, applied in place to ONE live tier x collision modes: well-formed after every step",
+                        bounds={}))
 
     V = (0.0, 0.5, 1.0, 2.0, 3.0)
     seeds_i = [("I", "t", 0.0, 3.0, ((0.0, 1.0, "a"), (1.0, 2.0, "b"))), ("I", "t", 0.0, 3.0, ((0.5, 2.0, "a"),)),
